@@ -281,6 +281,15 @@ def is_sym(x):
     return isinstance(x, (SymReal, SymBool))
 
 
+def _is_fp(x):
+    return x.__class__.__name__ == "SymFP"
+
+
+def _fplift(x):
+    from . import fp as _fp
+    return _fp.SymFP.lift(x)
+
+
 def _uf_default(name, fargs, rng):
     """fixed smooth pseudo-random function used for uninterpreted backends in concrete / pinned runs"""
     h = int(hashlib.sha1(name.encode()).hexdigest()[:8], 16)
@@ -432,6 +441,9 @@ class Ctx:
             return False
         if z3.is_rational_value(s) or z3.is_algebraic_value(s):
             return z3num_to_frac(s)
+        if z3.is_fp_value(s):
+            from . import fp as _fp
+            return _fp.fpval_to_float(s)
         raise VkError("pinned evaluation did not reduce: %s" % str(s)[:200])
 
     # ------------------------------------------------------------------ assumptions
@@ -819,6 +831,10 @@ class Ctx:
                 return b
         if isinstance(a, (SymBool, bool, _np.bool_)) and isinstance(b, (SymBool, bool, _np.bool_)):
             return mk_bool(z3.If(ct, b2z(a), b2z(b)))
+        from . import fp as _fp
+        if isinstance(a, _fp.SymFP) or isinstance(b, _fp.SymFP):
+            fa, fb = _fp.SymFP.lift(a), _fp.SymFP.lift(b)
+            return _fp.SymFP(z3.If(ct, fa.t, fb.t))
         la, lb = SymReal.lift(a), SymReal.lift(b)
         if la is None or lb is None:
             # non-scalar alternatives: fork
@@ -832,18 +848,40 @@ class Ctx:
         if self.mode == "concrete":
             a = float(a); b = float(b)
             return abs(a - b) <= atol + rtol * max(abs(a), abs(b))
+        if _is_fp(a) or _is_fp(b):
+            return _fplift(a) == b
         return SymReal.lift(a) == b
 
     def le(self, a, b, rtol=1e-7, atol=0.0):
         if self.mode == "concrete":
             a = float(a); b = float(b)
             return a <= b + atol + rtol * max(abs(a), abs(b))
+        if _is_fp(a) or _is_fp(b):
+            return _fplift(a) <= b
         return SymReal.lift(a) <= b
 
     def lt(self, a, b):
         if self.mode == "concrete":
             return float(a) < float(b)
+        if _is_fp(a) or _is_fp(b):
+            return _fplift(a) < b
         return SymReal.lift(a) < b
+
+    def xeq(self, a, b):
+        """exact equality claim (IEEE semantics in concrete mode, no tolerance)"""
+        if self.mode == "concrete":
+            return float(a) == float(b)
+        return self.eq(a, b)
+
+    def xle(self, a, b):
+        if self.mode == "concrete":
+            return float(a) <= float(b)
+        return self.le(a, b)
+
+    def xlt(self, a, b):
+        if self.mode == "concrete":
+            return float(a) < float(b)
+        return self.lt(a, b)
 
     def all(self, conds):
         conds = list(conds)
@@ -883,7 +921,9 @@ class Ctx:
         if self.mode == "concrete":
             self.observed[name] = val if isinstance(val, (bool, _np.bool_)) or val is None else float(val)
         elif self.mode == "pinned":
-            if isinstance(val, SymReal):
+            if _is_fp(val):
+                self.observed[name] = float(self.evalz(val.t))
+            elif isinstance(val, SymReal):
                 self.observed[name] = float(self.evalz(val.t))
             elif isinstance(val, SymBool):
                 self.observed[name] = bool(self.evalz(val.t))
